@@ -77,4 +77,99 @@ theorem fetch_eq_store {τ} (f : Format) (c : Codec τ) (fuel : Nat) (ctx : Ctx)
   | error e => rfl
   | ok ctx' => simp
 
+/-! ### File level: encodings, the file context parser, error classes -/
+
+/-- Reading a stored file with encoding `e'` gives its text iff `e'` is the encoding it is stored in
+    (the model's idealisation of `open(path, encoding=e').read()`). -/
+theorem Stored.readAs_eq_some_iff {τ} (e e' : String) (t u : τ) :
+    (Stored.mk e t).readAs e' = some u ↔ e = e' ∧ t = u := by
+  by_cases h : e = e' <;> simp [Stored.readAs, h]
+
+theorem Stored.readAs_self {τ} (e : String) (t : τ) : (Stored.mk e t).readAs e = some t := by
+  simp [Stored.readAs]
+
+theorem Stored.readAs_other {τ} (e e' : String) (t : τ) (h : e ≠ e') : (Stored.mk e t).readAs e' = none := by
+  simp [Stored.readAs, h]
+
+/-- The write step at file level: the payload lands in `path`, stored in the write encoding. -/
+theorem fileWriteStored_ok {τ} (f : Format) (c : Codec τ) (fuel : Nat) (ctx : Ctx) (dflt : Option String)
+    (files : Files (Stored τ)) (path we : String) (p' : Val) (t : τ)
+    (hw : writePayload f fuel ctx = .ok (path, p')) (hwe : writeEncoding f fuel ctx dflt = .ok we)
+    (he : c.enc p' = some t) :
+    fileWriteStored f c fuel ctx dflt files = .ok (files.set path ⟨we, t⟩) := by
+  simp [fileWriteStored, hw, hwe, he]
+
+/-- The file-level write step forgets nothing but the encoding: it succeeds exactly when the
+    value-level write step does, with the same error otherwise (given the encoding option is in the
+    modelled domain). -/
+theorem fileWriteStored_error_eq {τ} (f : Format) (c : Codec τ) (fuel : Nat) (ctx : Ctx) (dflt : Option String)
+    (filesS : Files (Stored τ)) (files : Files τ) (we : String) (e : Exc)
+    (hwe : writeEncoding f fuel ctx dflt = .ok we) (h : fileWrite f c fuel ctx files = .error e) :
+    fileWriteStored f c fuel ctx dflt filesS = .error e := by
+  simp only [fileWrite] at h
+  simp only [fileWriteStored]
+  cases hw : writePayload f fuel ctx with
+  | error e' => simpa [hw] using h
+  | ok pp =>
+    obtain ⟨path, payload⟩ := pp
+    simp only [hw] at h
+    simp only [hwe]
+    cases he : c.enc payload with
+    | none => simpa [he] using h
+    | some t => simp [he] at h
+
+theorem fetchStored_eq_store {τ} (f : Format) (c : Codec τ) (fuel : Nat) (ctx : Ctx) (dflt : Option String)
+    (files : Files (Stored τ)) (path fe : String) (key : Option Val) (t : τ) (p' : Val)
+    (hf : fetchArgs f fuel ctx = .ok (path, key)) (hfe : fetchEncoding f fuel ctx dflt = .ok fe)
+    (hfile : files.get? path = some ⟨fe, t⟩) (hd : c.dec t = some p') :
+    fetchStored f c fuel ctx dflt files = store ctx key p' := by
+  simp [fetchStored, hf, hfe, hfile, Stored.readAs, hd]
+
+theorem fetchStored_other_encoding {τ} (f : Format) (c : Codec τ) (fuel : Nat) (ctx : Ctx) (dflt : Option String)
+    (files : Files (Stored τ)) (path fe we : String) (key : Option Val) (t : τ)
+    (hf : fetchArgs f fuel ctx = .ok (path, key)) (hfe : fetchEncoding f fuel ctx dflt = .ok fe)
+    (hfile : files.get? path = some ⟨we, t⟩) (hne : we ≠ fe) :
+    fetchStored f c fuel ctx dflt files = .error ⟨"UnicodeDecodeError", path⟩ := by
+  simp [fetchStored, hf, hfe, hfile, Stored.readAs, hne]
+
+/-- A parsed mapping passes every parser's top-level check. -/
+theorem fileParserF_dict {τ} (f : Format) (c : Codec τ) (t : τ) (kvs : List (Val × Val))
+    (hd : c.dec t = some (.dict kvs)) : fileParserF f c t = .ok (.dict kvs) := by
+  cases f <;> simp [fileParserF, hd, hasLen]
+
+/-- For json and yaml the per-format parser is the value-level `fileParser`. -/
+theorem fileParserF_eq_fileParser {τ} (f : Format) (c : Codec τ) (t : τ) (hf : f ≠ .toml) :
+    fileParserF f c t = fileParser c t := by
+  cases f
+  · simp only [fileParserF, fileParser]
+    cases c.dec t with
+    | none => rfl
+    | some d => cases d <;> rfl
+  · simp only [fileParserF, fileParser]
+    cases c.dec t with
+    | none => rfl
+    | some d => cases d <;> rfl
+  · exact absurd rfl hf
+
+/-- With arguments the parser is `fileParserPath` on their single-space join. -/
+theorem fileParserArgs_cons {τ} (f : Format) (c : Codec τ) (dflt : Option String) (args : List String)
+    (files : Files (Stored τ)) (hne : args ≠ []) :
+    fileParserArgs f c dflt (some args) files =
+      match fileParserPath f c dflt (joinArgs args) files with
+      | .error e => .error e
+      | .ok v => .ok (some v) := by
+  cases args with
+  | nil => exact absurd rfl hne
+  | cons a rest => rfl
+
+/-- Both steps take `input.get('encoding', config.default_encoding)`: with the same `encoding` entry
+    in their (formatted) inputs and the same config default they use the same encoding. -/
+theorem fetchEncoding_eq_writeEncoding (f : Format) (fuel fuel2 : Nat) (ctx ctx2 : Ctx) (dflt : Option String)
+    (inputW inputF : List (Val × Val))
+    (hW : formattedInput fuel ctx f.writeKey = .ok (.dict inputW))
+    (hF : formattedInput fuel2 ctx2 f.fetchKey = .ok (.dict inputF))
+    (hsame : dictGet? inputF (.str "encoding") = dictGet? inputW (.str "encoding")) :
+    fetchEncoding f fuel2 ctx2 dflt = writeEncoding f fuel ctx dflt := by
+  cases f <;> simp [fetchEncoding, writeEncoding, hW, hF, encodingOpt, hsame]
+
 end Pypyr.Codec
